@@ -14,6 +14,7 @@ import (
 	"verif/harness/internal/c08"
 	"verif/harness/internal/c11"
 	"verif/harness/internal/c12"
+	"verif/harness/internal/c13"
 	"verif/harness/internal/c14"
 	"verif/harness/internal/c15"
 )
@@ -30,6 +31,8 @@ func main() {
 		os.Exit(c03.Main(os.Args[2:]))
 	case "c12":
 		os.Exit(c12.Main(os.Args[2:]))
+	case "c13":
+		os.Exit(c13.Main(os.Args[2:]))
 	case "c08":
 		os.Exit(c08.Main(os.Args[2:]))
 	case "c14":
